@@ -656,7 +656,9 @@ func drive(ps *propSpec, tier string, seed uint64, evidencePath, replayDir, find
 
 	wall := time.Since(start).Seconds()
 	// probes that must have been reached
-	if exit == 0 && tier == "thorough" {
+	if exit == 0 && tier == "thorough" && !(total.TimedOut && total.Runs < ps.ThoroughRuns/10) {
+		// (a batch the wall cap cut to less than a tenth of its size - a very busy machine - is not
+		// asked to have reached every rare probe)
 		for _, p := range ps.MustProbes {
 			if wovenSites.loaded && len(wovenSites.mapRanges) == 0 && (p == "map_ranges_under_chosen_order" || p == "map.order") {
 				// the library at this tree has no map range at all: nothing for the T1 seam to own
